@@ -60,7 +60,7 @@ def items(Item, NUMT):
         # ---- utils/clipping.rs -----------------------------------------------------------------------------
         Item("clip_is_inside", "src/utils/clipping.rs", None, "is_inside", ret="bool", out="ScalarClip"),
         Item("clip_compute_intersection", "src/utils/clipping.rs", None, "compute_intersection", ret=("struct", "Coord"), out="ScalarClip"),
-    ] + visual_items(Item, NUMT) + nms_items(Item, NUMT) + own_area_items(Item, NUMT) + tracker_items(Item, NUMT)
+    ] + visual_items(Item, NUMT) + nms_items(Item, NUMT) + own_area_items(Item, NUMT) + tracker_items(Item, NUMT) + kalman_box_items(Item, NUMT)
 
 
 def visual_items(Item, NUMT):
@@ -150,3 +150,21 @@ def tracker_items(Item, NUMT):
                         state=[("self.auto_waste.counter", "counter", "N")], events=["self.auto_waste()"],
                         subst=[("self.auto_waste.periodicity", "periodicity", "N")]))
     return res
+
+
+
+def kalman_box_items(Item, NUMT):
+    """box <-> Kalman state mean (utils/kalman.rs, utils/kalman/kalman_2d_box.rs, Universal2DBox::new) -> gen/ScalarKalmanBox.v"""
+    UB = ("struct", "Universal2DBox")
+    return [
+        Item("ubox_new", "src/utils/bbox.rs", r"impl\s+Universal2DBox\b", "new", key="Universal2DBox::new", self_struct="Universal2DBox",
+             ret=UB, out="ScalarKalmanBox"),
+        # the state mean as a list (value.mean); result None = Err(OutOfRange)
+        Item("kalman_state_to_ubox", "src/utils/kalman.rs", r"impl<const X: usize>\s+TryFrom<KalmanState<X>>\s+for\s+Universal2DBox\b", "try_from",
+             key="Universal2DBox::try_from_state", self_struct="Universal2DBox", ret=("option", UB), out="ScalarKalmanBox",
+             subst=[("value.mean", "mean", ("list", NUMT))]),
+        # the mean of the state that `initiate` builds for a box
+        Item("kalman_initiate_mean", "src/utils/kalman/kalman_2d_box.rs", r"impl\s+Universal2DBoxKalmanFilter\b", "initiate",
+             snippet=r"fn initiate\b.*?let mean[^=]*=\s*SVector::from_iterator\((\[.*?\])\);",
+             params=[("bbox", UB)], ret=("list", NUMT), out="ScalarKalmanBox"),
+    ]
